@@ -46,6 +46,8 @@ def strategy_(draw, tier):
     # computed once and re-used): two updates that are the same object are
     # still two updates
     spec['same_object'] = draw(st.integers(0, 3)) == 0
+    # one or two invocations (the second call must be routed like the first)
+    spec['ticks'] = draw(st.sampled_from([1, 1, 2]))
     return spec
 
 
@@ -129,7 +131,10 @@ def run_case(spec):
                 res.fail('construct', '%s %r -> node %r holds %r, tree says %r'
                          % (pname, view, node, got, want))
                 return res
-        engine.update(1)
+        nticks = spec.get('ticks', 1)
+        engine.update(nticks)
+        if nticks > 1:
+            res.label('two_invocations')
         # read side
         outputs = {p['name']: set(p['outputs']) for p in spec['procs']}
         seen = {}
@@ -153,7 +158,7 @@ def run_case(spec):
         # write side + frame condition
         expected = copy.deepcopy(before)
         for pname, view, node, inc in incs:
-            put(expected, node, getp(expected, node) + inc)
+            put(expected, node, getp(expected, node) + inc * nticks)
         after = strip_processes(kit.plain_state(engine.state.get_value()))
         if deq(after, expected):
             # describe the first differing leaf
